@@ -3,8 +3,11 @@ package c17
 
 import (
 	"fmt"
+	"os"
 	"path/filepath"
+	"runtime/debug"
 	"strings"
+	"sync"
 	"testing"
 	"time"
 
@@ -136,5 +139,87 @@ func TestLookupInFlightDoesNotUndoAnAcknowledgedDelete(t *testing.T) {
 			t.Errorf("after the acknowledged update of the secret the cache answers %+v, %v", got, err)
 		}
 		c.Shutdown()
+	}
+}
+
+// mutating store: applies updates, and parks the first update after it has been applied
+type slowStore struct {
+	mu sync.Mutex
+	store
+	hold    chan struct{}
+	reached chan struct{}
+	first   bool
+}
+
+func (s *slowStore) UpdateUserAccount(k string, p auth.MutableProps) error {
+	s.mu.Lock()
+	a := s.m[k]
+	if p.Secret != nil {
+		a.Secret = *p.Secret
+	}
+	s.m[k] = a
+	park := !s.first
+	s.first = true
+	s.mu.Unlock()
+	if park {
+		close(s.reached)
+		<-s.hold
+	}
+	return nil
+}
+func (s *slowStore) GetUserAccount(k string) (auth.Account, error) {
+	s.mu.Lock()
+	defer s.mu.Unlock()
+	return s.store.GetUserAccount(k)
+}
+
+// Two updates of one account through the cache: whatever order they take, once both are acknowledged the cache answers
+// what the store holds. The store update and the cache update of one call were two steps with nothing holding them
+// together: the cache kept the secret of the update that reached the store first.
+func TestConcurrentUpdatesLeaveCacheAndStoreAgreeing(t *testing.T) {
+	s := &slowStore{store: store{m: map[string]auth.Account{"k": {Access: "k", Secret: "s0", Role: auth.RoleUser}}},
+		hold: make(chan struct{}), reached: make(chan struct{})}
+	c := auth.NewCache(s, time.Minute, time.Minute)
+	defer c.Shutdown()
+	if _, err := c.GetUserAccount("k"); err != nil { // the account is in the cache
+		t.Fatal(err)
+	}
+	x, y := "X", "Y"
+	d1, d2 := make(chan struct{}), make(chan struct{})
+	go func() { c.UpdateUserAccount("k", auth.MutableProps{Secret: &x}); close(d1) }()
+	<-s.reached // the first update is in the store, not yet in the cache
+	go func() { c.UpdateUserAccount("k", auth.MutableProps{Secret: &y}); close(d2) }()
+	select {
+	case <-d2: // the second update ran to its end in between
+	case <-time.After(300 * time.Millisecond): // or it waits for the first one
+	}
+	close(s.hold)
+	<-d1
+	<-d2
+	inStore, _ := s.GetUserAccount("k")
+	inCache, err := c.GetUserAccount("k")
+	if err != nil || inCache.Secret != inStore.Secret {
+		t.Errorf("both updates acknowledged: the store holds secret %q, the cache answers %q (%v)", inStore.Secret, inCache.Secret, err)
+	}
+}
+
+// Changing accounts does not use up file descriptors: the temporary file the new account file is written to was never closed.
+func TestAccountChangesDoNotLeakDescriptors(t *testing.T) {
+	svc, err := auth.NewInternal(auth.Account{Access: "root", Secret: "rootsecret"}, t.TempDir())
+	if err != nil {
+		t.Fatal(err)
+	}
+	defer svc.Shutdown()
+	old := debug.SetGCPercent(-1) // no finalizer may tidy up behind the code
+	defer debug.SetGCPercent(old)
+	fds := func() int { e, _ := os.ReadDir("/proc/self/fd"); return len(e) }
+	before := fds()
+	for i := 0; i < 40; i++ {
+		if err := svc.CreateAccount(auth.Account{Access: fmt.Sprintf("user%d", i), Secret: "s", Role: auth.RoleUser}); err != nil {
+			t.Fatalf("create %d: %v", i, err)
+		}
+	}
+	if after := fds(); after > before+3 {
+		t.Errorf("40 account changes left %d more descriptors open (%d -> %d)", after-before, before, after)
 	}
 }
